@@ -566,4 +566,113 @@ theorem encSCMP_dec (data : Bytes) (h : SCMPHdr) (pl : Bytes) (hd : decSCMP data
     rfl
   · cases hd
 
+/-! ### SPAO option views; alignment invariant -/
+
+theorem beNat_natBE6' (n : Nat) : beNat (natBE 6 n) = n % 2^48 := by
+  simp [beNat, natBE]; omega
+
+theorem natBE_beNat6 (a b c d e f : UInt8) : natBE 6 (beNat [a,b,c,d,e,f]) = [a,b,c,d,e,f] := by
+  have := a.toNat_lt; have := b.toNat_lt; have := c.toNat_lt; have := d.toNat_lt
+  have := e.toNat_lt; have := f.toNat_lt
+  simp [beNat, natBE]
+  bytes_eq
+
+theorem beNat6_lt (a b c d e f : UInt8) : beNat [a,b,c,d,e,f] < 2^48 := by
+  have := a.toNat_lt; have := b.toNat_lt; have := c.toNat_lt; have := d.toNat_lt
+  have := e.toNat_lt; have := f.toNat_lt
+  simp [beNat]; omega
+
+/-- params → option → params -/
+theorem parseAuthOpt_enc (p : AuthParams) (hw : p.WF) :
+    ∃ o, encAuthOpt p = .ok o ∧ parseAuthOpt o = .ok p ∧ o.FixWF ∧ o.data.length = 12 + p.auth.length := by
+  obtain ⟨h1, h2, h3, h4⟩ := hw
+  unfold encAuthOpt
+  rw [if_neg (by omega)]
+  refine ⟨_, rfl, ?_, ?_, ?_⟩
+  · have e1 := beNat_natBE4 p.spi
+    have e2 := beNat_natBE6' p.ts
+    simp only [natBE] at e1 e2
+    simp only [parseAuthOpt, natBE, List.cons_append, List.nil_append, ne_eq, not_true_eq_false,
+      if_false]
+    rw [e1, e2, Nat.mod_eq_of_lt h1, Nat.mod_eq_of_lt h3]
+    simp [Nat.mod_eq_of_lt h2]
+  · refine ⟨by show 2 < 256; omega, ?_, by simp, Or.inr ⟨by show 2 < 4; omega, by show 4 < 256; omega⟩⟩
+    simp [length_natBE]; omega
+  · simp [length_natBE]; omega
+
+/-- option → params → option: reproduces the option data except the reserved byte (index 5) -/
+theorem encAuthOpt_parse (o : Opt) (p : AuthParams) (hl : o.data.length < 256)
+    (h : parseAuthOpt o = .ok p) :
+    p.WF ∧ ∃ o', encAuthOpt p = .ok o' ∧ o'.typ = o.typ ∧ o'.data = clr 5 0 o.data ∧
+      o'.dataLen = o.data.length := by
+  unfold parseAuthOpt at h
+  split at h
+  · cases h
+  · rename_i ht
+    split at h
+    · rename_i s0 s1 s2 s3 a r t0 t1 t2 t3 t4 t5 auth hd
+      cases h
+      rw [hd] at hl
+      simp only [List.length_cons] at hl
+      have hts := beNat6_lt t0 t1 t2 t3 t4 t5
+      refine ⟨⟨beNat4_lt _ _ _ _, a.toNat_lt, hts, by show auth.length ≤ 243; omega⟩, ?_⟩
+      unfold encAuthOpt
+      rw [if_neg (by simp only; omega)]
+      refine ⟨_, rfl, by simp only; omega, ?_, ?_⟩
+      · simp only [natBE_beNat4, natBE_beNat6, UInt8.ofNat_toNat, hd]
+        simp [clr, keepLow_zero]
+      · simp only [hd, List.length_cons]; omega
+    · cases h
+
+/-- **Alignment invariant of `serializeTLVOptions(fixLengths)`**: every option of the list is
+found in the serialized bytes at an offset (counted from the start of the extension header, i.e.
+`len` = 2 for the first) that satisfies its alignment request `offset ≡ y (mod x)`. -/
+theorem encOptsFix_aligned (os : List Opt) (hw : ∀ o ∈ os, o.FixWF) (len : Nat) (i : Nat)
+    (hi : i < os.length) :
+    ∃ pre post, encOptsFix len os = pre ++ optBytes os[i] ++ post ∧
+      (os[i].alignX ≠ 0 → (len + pre.length) % os[i].alignX = os[i].alignY) := by
+  induction os generalizing len i with
+  | nil => simp at hi
+  | cons o os ih =>
+    have ho := hw o (by simp)
+    have hos : ∀ o' ∈ os, o'.FixWF := fun o' h' => hw o' (by simp [h'])
+    obtain ⟨h1, h2, h3, h4⟩ := ho
+    simp only [encOptsFix]
+    generalize hpad : (if o.alignX ≠ 0 then
+        (if o.alignX * (len / o.alignX) + o.alignY < len then
+          o.alignX * (len / o.alignX) + o.alignY + o.alignX
+        else o.alignX * (len / o.alignX) + o.alignY) - len else 0) = pad
+    have hob : (if o.typ = 0 then [0]
+      else UInt8.ofNat o.typ :: UInt8.ofNat o.data.length :: o.data) = optBytes o := rfl
+    rw [hob]
+    have hpl : pad ≤ 257 ∧ (o.alignX ≠ 0 → (len + pad) % o.alignX = o.alignY) := by
+      rcases h4 with h4 | ⟨h4, h5⟩
+      · simp [h4] at hpad; exact ⟨by omega, fun hx => absurd h4 hx⟩
+      · have hx : o.alignX ≠ 0 := by omega
+        have := pad_lt len o.alignX o.alignY hx h4
+        simp only at this
+        rw [if_pos hx] at hpad
+        rw [hpad] at this
+        exact ⟨by omega, fun _ => this.2⟩
+    obtain ⟨_, _, _, hplen⟩ := decOpts_padBytes pad hpl.1
+    cases i with
+    | zero =>
+      refine ⟨padBytes pad, encOptsFix (len + pad + (optBytes o).length) os, by simp, ?_⟩
+      intro hx
+      rw [hplen]
+      exact hpl.2 hx
+    | succ j =>
+      simp only [List.length_cons] at hi
+      obtain ⟨pre, post, he, ha⟩ := ih hos (len + pad + (optBytes o).length) j (by omega)
+      refine ⟨padBytes pad ++ optBytes o ++ pre, post, ?_, ?_⟩
+      · simp only [List.getElem_cons_succ]
+        rw [he]; simp
+      · simp only [List.getElem_cons_succ]
+        intro hx
+        have := ha hx
+        simp only [List.length_append, hplen]
+        rw [show len + (pad + (optBytes o).length + pre.length) =
+          len + pad + (optBytes o).length + pre.length by omega]
+        exact this
+
 end Scion.WireExt
